@@ -62,6 +62,8 @@ def doc_lines(L: Dict[str, Any]) -> List[str]:
     has_args = L["kind"] in ("function", "method", "class")
     if fmt == "epytext":
         lines += ["@note: field body line one", "    field body two%s" % t("field")]
+        if prob == "tfield":
+            lines += ["@ivar y: the y", "@type y: nosuch.name"]
         if prob == "unkfield":
             lines += ["@unknownfield: text"]
         if prob == "param":
@@ -70,6 +72,8 @@ def doc_lines(L: Dict[str, Any]) -> List[str]:
         lines += [":note: field body line one", "    field body two%s" % t("field")]
         if prob == "unkfield":
             lines += [":unknownfield: text"]
+        if prob == "tfield":
+            lines += [":ivar y: the y", ":type y: nosuch.name"]
         if prob == "param" and L.get("cons"):
             lines += [":Parameters:", "    a", "        the arg", "    nosuch", "        text"]
         elif prob == "param":
@@ -150,7 +154,7 @@ def render(L: Dict[str, Any]) -> Tuple[str, Dict[str, int]]:
     if L.get("typed"):
         out += ["class T:", '    """The type."""']         # below the object: moves nothing
     # where the planted token / field actually is in the rendered file
-    needle = {"xref": "nosuch.name", "markup": "unclosed", "unkfield": "unknownfield", "param": "nosuch"}[L["prob"]]
+    needle = {"xref": "nosuch.name", "markup": "unclosed", "unkfield": "unknownfield", "param": "nosuch", "tfield": "nosuch.name"}[L["prob"]]
     at = [i + 1 for i, s in enumerate(out) if needle in s]
     return "\n".join(out) + "\n", {"quote": quote, "text0": text0, "close": close, "at": at[0] if len(at) == 1 else -1,
                                    "doclen": len(lines)}
@@ -162,7 +166,7 @@ def check_geometry(rec: Dict[str, Any], meas: Dict[str, int], src: str) -> None:
         if rec[f] != meas[f]:
             raise MachineryError(f"Lines.tla geometry != rendered file for {rec['lay']}: {f} spec={rec[f]} file={meas[f]}\n{src}")
     head = {"p1": "Summary line one", "p2l2": "Second paragraph line one", "item": "item line one",
-            "field": "ote", "own": "nosuch" if rec["lay"]["prob"] == "param" else "unknownfield"}[rec["lay"]["pos"]]
+            "field": "ote", "own": {"param": "nosuch", "tfield": "type y"}.get(rec["lay"]["prob"], "unknownfield")}[rec["lay"]["pos"]]
     flines = src.split("\n")
     if head not in flines[rec["first"] - 1]:
         raise MachineryError(f"Lines.tla FirstLine is not the first line of the construct for {rec['lay']}: "
@@ -295,8 +299,10 @@ def _lines_batch(job: Tuple[str, str, List[Dict[str, Any]]]) -> Dict[str, Any]:
         name = "m%05d.py" % i
         Path(pkg, name).write_text(src)
         names[name] = rec
-    r = run_pydoctor(root, pkg, ["--docformat=" + fmt])
-    alone = render_only(pkg, fmt) if job_has_history(root) else None
+    pt = fmt.endswith("+pt")                  # the layouts of this batch need --process-types
+    fmt = fmt[:-3] if pt else fmt
+    r = run_pydoctor(root, pkg, ["--docformat=" + fmt] + (["--process-types"] if pt else []))
+    alone = render_only(pkg, fmt) if (job_has_history(root) and not pt) else None
     shutil.rmtree(root, ignore_errors=True)
     obs = []
     for name, rec in names.items():
@@ -430,6 +436,15 @@ def kf_docutils_sep(w: Dict[str, Any]) -> bool:
             and len(got) == 1 and not (exp["lo"] <= got[0] <= exp["hi"]) and exp["lo"] <= got[0] - 1 <= exp["hi"])
 
 
+def kf_type_twice(w: Dict[str, Any]) -> bool:
+    """Python twin of Lines.tla KF_TypeTwice: --process-types, unresolvable name in the type field of a field-documented
+    attribute: besides the right line, it is reported at docstring_lineno(attribute) + line of the type field."""
+    lay, exp = w.get("layout") or {}, w.get("expected") or {}
+    got = sorted(w.get("observed", {}).get("lines") or [])
+    return (w.get("invariant") == "ObsAcceptable" and lay.get("prob") == "tfield" and len(got) == 2
+            and exp["lo"] <= got[0] <= exp["hi"] and got[1] == exp.get("impl2"))
+
+
 def kf_napoleon_beyond(w: Dict[str, Any]) -> bool:
     """Python twin of Lines.tla KF_Napoleon: google / numpy section with typed entries: the line counted in the text napoleon
     produced (one extra :type: line per entry) lies past the closing quotes of the docstring."""
@@ -445,7 +460,7 @@ def lines_cfg(ctx: Ctx, source: str) -> str:
         ks, inds = "{0, 7}", "{0, 2}"
     else:
         ks, inds = "{0, 1, 7}", "{0, 1, 2}"
-    inv = ("INVARIANT DocstringLineRight\nINVARIANT ImplAcceptable\nINVARIANT ImplShift\nINVARIANT HistoryIndependent\n" if source == "enum"
+    inv = ("INVARIANT DocstringLineRight\nINVARIANT ImplAcceptable\nINVARIANT ImplShift\nINVARIANT HistoryIndependent\nINVARIANT ImplSecondAcceptable\n" if source == "enum"
            else "INVARIANT DocstringLineRight\n")
     return f"""SPECIFICATION Spec
 CONSTANTS Source = "{source}"
@@ -480,6 +495,7 @@ def run(ctx: Ctx) -> int:
     ctx.register_matcher("leading-ws-line-shift", kf_leading_ws)
     ctx.register_matcher("napoleon-line-beyond-docstring", kf_napoleon_beyond)
     ctx.register_matcher("docutils-extra-line-boundaries", kf_docutils_sep)
+    ctx.register_matcher("type-field-offset-added-twice", kf_type_twice)
     nproc = max(2, min(NCPU, 16))
 
     # ================================================================= Lines: spec -> code
@@ -495,7 +511,7 @@ def run(ctx: Ctx) -> int:
     ctx.extra["layouts"] = len(recs)
     by_fmt: Dict[str, List[Dict[str, Any]]] = {}
     for rec in recs:
-        by_fmt.setdefault(rec["lay"]["fmt"], []).append(rec)
+        by_fmt.setdefault(rec["lay"]["fmt"] + ("+pt" if rec["lay"]["prob"] == "tfield" else ""), []).append(rec)
     jobs = []
     for fmt, rs in sorted(by_fmt.items()):
         rng.shuffle(rs)
@@ -521,30 +537,32 @@ def run(ctx: Ctx) -> int:
     for o in observations:
         rec = recs_by_key[json.dumps(o["lay"], sort_keys=True)]
         ctx.traces += 1
-        exp = {"lo": rec["lo"], "hi": rec["hi"], "first": rec["first"], "at": rec["at"], "impl": rec["impl"]}
+        exp = {"lo": rec["lo"], "hi": rec["hi"], "first": rec["first"], "at": rec["at"], "impl": rec["impl"], "impl2": rec["impl2"]}
         wit = {"layout": o["lay"], "expected": exp, "observed": {"lines": o["lines"], "msgs": o["msgs"]},
                "key": "lines:%s:%s:%s:%s:%s%s" % (o["lay"]["fmt"], o["lay"]["prob"], o["lay"]["pos"], o["lay"]["kind"],
                                                  "typed" if o["lay"]["typed"] else "", "longws" if o["lay"]["longws"] else "")
                + ("title" if o["lay"].get("lead") == "title" else "") + ("tight" if o["lay"].get("tight") else "")
                + (o["lay"].get("sep", "none") if o["lay"].get("sep", "none") != "none" else "") + ("cons" if o["lay"].get("cons") else "")}
-        if len(o["lines"]) != 1:
-            ctx.violation({"invariant": "ObsOne", **wit})          # the planted problem lost, or reported twice
+        want_n = 2 if rec["impl2"] else 1
+        if len(o["lines"]) != want_n:
+            ctx.violation({"invariant": "ObsOne", **wit})          # the planted problem lost, or reported more often than the model says
         elif not o["path_ok"]:
             ctx.violation({"invariant": "NamesTheFile", **wit})
-        elif not (rec["lo"] <= o["lines"][0] <= rec["hi"]):
+        elif not all(rec["lo"] <= x <= rec["hi"] for x in o["lines"]):
             ctx.violation({"invariant": "ObsAcceptable", **wit})
         if o.get("alone") is not None:
             histories += 1
             if o["alone"] != sorted(o["lines"]):          # the same docstring, the other order of summary / body
                 ctx.violation({"invariant": "HistoryIndependent", **wit, "observed": {"lines": o["lines"], "render_alone": o["alone"], "msgs": o["msgs"]},
                                "key": "hist:" + wit["key"]})
-        if len(o["lines"]) == 1 and o["lines"][0] != rec["impl"]:
+        model_lines = sorted([rec["impl"]] + ([rec["impl2"]] if rec["impl2"] else []))
+        if len(o["lines"]) == want_n and sorted(o["lines"]) != model_lines:
             drift += 1
-            ctx.drift_note({"layout": o["lay"], "model": rec["impl"], "real": o["lines"][0]})
+            ctx.drift_note({"layout": o["lay"], "model": model_lines, "real": o["lines"]})
             dk = "%s/%s/%s/args=%s/typed=%s/longws=%s: real-model=%d" % (
                 o["lay"]["fmt"], o["lay"]["prob"], o["lay"]["pos"], o["lay"]["kind"] in ("function", "method", "class"),
                 o["lay"]["typed"], str(o["lay"]["longws"]) + "/" + o["lay"].get("lead", "") + "/tight=%s/sep=%s/cons=%s" % (o["lay"].get("tight"), o["lay"].get("sep"), o["lay"].get("cons")),
-                o["lines"][0] - rec["impl"])
+                sorted(o["lines"])[-1] - model_lines[-1])
             drift_classes[dk] = drift_classes.get(dk, 0) + 1
         if o["id"] % 1500 == 1:
             ctx.sample({"layout": o["lay"], "accepted": [rec["lo"], rec["hi"]], "model": rec["impl"], "printed": o["lines"], "msg": o["msgs"][:1]})
@@ -568,7 +586,7 @@ def run(ctx: Ctx) -> int:
     for o in observations:
         v = verdicts[o["id"]]
         rec = recs_by_key[json.dumps(o["lay"], sort_keys=True)]
-        py_ok = len(o["lines"]) == 1 and rec["lo"] <= o["lines"][0] <= rec["hi"]
+        py_ok = len(o["lines"]) == (2 if rec["impl2"] else 1) and all(rec["lo"] <= x <= rec["hi"] for x in o["lines"])
         if v["ok"] != py_ok:
             raise MachineryError(f"TLC and the Python twin disagree on observation {o}: {v}")
         if not v["ok"]:
